@@ -46,6 +46,17 @@ def model_check(res, tier):
         if st["violated"]:
             res.drift.append({"model": "Mixer/" + name, "violated": st["violated"]})
         res.add_mc("Mixer/" + name, st)
+    # how new tracks reach the mixer: the order of its two ring drains (PickUp.tla) - the code's order keeps every rendered
+    # track together with the send tracks its routes name; the reversed order must break that (its counterexample is the
+    # schedule of the directed racy-add sessions below)
+    pu = "SPECIFICATION Spec\nCONSTANTS\n  NPairs = %d\n  MaxCb = %d\n  SubFirst = %s\nINVARIANTS RoutesComplete TypeOK\nCHECK_DEADLOCK FALSE\n"
+    st = tlc_check("PickUp.tla", write_cfg("PickUp.cfg", pu % (2 if tier == "quick" else 3, 3 if tier == "quick" else 4, "TRUE")), workers=4, timeout=900, tag="c02pu")
+    if st["violated"]:
+        res.drift.append({"model": "PickUp", "violated": st["violated"]})
+    res.add_mc("PickUp (drain order of the mixer's new-resource rings)", st)
+    tlc_check("PickUp.tla", write_cfg("PickUp_rev.cfg", pu % (1, 2, "FALSE")), workers=2, timeout=600, expect_violation="RoutesComplete", tag="c02pu")
+    tlc_check("PickUp.tla", write_cfg("PickUp_w.cfg", (pu % (1, 2, "TRUE")).replace("INVARIANTS RoutesComplete TypeOK", "INVARIANT W_BuiltDuringDrains")),
+              workers=2, timeout=600, expect_violation="W_BuiltDuringDrains", tag="c02pu")
     for w in ("W_Nonzero", "W_SendAudible", "W_Remainder", "W_SecondSendAlone"):
         tlc_check("MC_Mixer.tla", write_cfg("Mixer_%s.cfg" % w, cfg("QuickScenes", [2], [3], 1 if w == "W_SecondSendAlone" else 0, 2, "VIEW View\nINVARIANT " + w)),
                   workers=4, timeout=900, expect_violation=w, tag="c02w")
